@@ -118,7 +118,7 @@ Section LoopProofs.
     incl mx' mx /\ incl mn' mn /\ ((mx <> [] \/ mn <> []) -> mx' ++ mn' <> []).
   Proof.
     unfold select. destruct qlim2.
-    - destruct (Nat.ltb (length mx) _).
+    - destruct (Nat.leb (length mx) _).
       + destruct (nth_error mn _) as [i|] eqn:E; [|discriminate]. intros H. injection H as <- <-.
         apply nth_error_In in E. repeat split; [intros x [] | intros x [<-|[]]; exact E | intros _; discriminate].
       + destruct (nth_error mx _) as [i|] eqn:E; [|discriminate]. intros H. injection H as <- <-.
@@ -283,11 +283,43 @@ Section LoopProofs.
   Qed.
 End LoopProofs.
 
-(* the IndexError of enforce_q_lims = 2: a single lower-limit violation makes the selection fail *)
+(* the selection of enforce_q_lims = 2 is total: no IndexError *)
+Lemma argmax_from_lt l : forall i best bv, (best < i)%nat -> (argmax_from l i best bv < i + length l)%nat.
+Proof.
+  induction l as [|x t IH]; intros i best bv H; cbn [argmax_from length]; [lia|].
+  destruct (qltb bv x).
+  - specialize (IH (S i) i x). lia.
+  - specialize (IH (S i) best bv). lia.
+Qed.
+Lemma argmax_lt l : l <> [] -> (argmax l < length l)%nat.
+Proof. destruct l as [|x t]; [congruence|]. intros _. unfold argmax. pose proof (argmax_from_lt t 1 0 x). cbn [length]. lia. Qed.
+Lemma select_total qlim2 gens qg mx mn : (mx <> [] \/ mn <> []) -> select qlim2 gens qg mx mn <> SelErr.
+Proof.
+  intros H. unfold select. destruct qlim2; [|discriminate].
+  assert (Hl : length (viols gens qg mx mn) = (length mx + length mn)%nat) by (unfold viols; rewrite app_length, !map_length; reflexivity).
+  assert (Hne : viols gens qg mx mn <> []).
+  { intros E. rewrite E in Hl. cbn in Hl. destruct H as [H|H]; [destruct mx | destruct mn]; cbn in Hl; try lia; congruence. }
+  pose proof (argmax_lt _ Hne) as Hk. rewrite Hl in Hk.
+  destruct (Nat.leb (length mx) (argmax (viols gens qg mx mn))) eqn:E.
+  - apply Nat.leb_le in E. destruct (nth_error mn _) eqn:N; [discriminate|]. apply nth_error_None in N. lia.
+  - apply Nat.leb_gt in E. destruct (nth_error mx _) eqn:N; [discriminate|]. apply nth_error_None in N. lia.
+Qed.
+Lemma qloop_no_index_error solve qlim2 gens fuel st calls : qloop solve qlim2 gens fuel st calls <> QErr 1.
+Proof.
+  revert st calls. induction fuel as [|fuel IH]; intros st calls; cbn [qloop]; [discriminate|].
+  destruct (solve (limited st)) as [qg|]; [|discriminate].
+  destruct (viol_max gens (limited st) qg) as [|a mx] eqn:Emx.
+  - destruct (viol_min gens (limited st) qg) as [|b mn] eqn:Emn; [discriminate|].
+    destruct (select qlim2 gens qg [] (b :: mn)) eqn:Es; [|apply IH].
+    exfalso. revert Es. apply select_total. right. discriminate.
+  - destruct (select qlim2 gens qg (a :: mx) (viol_min gens (limited st) qg)) eqn:Es; [|apply IH].
+    exfalso. revert Es. apply select_total. left. discriminate.
+Qed.
+(* the rule before the repair: a single lower-limit violation made the selection fail *)
 Definition g2 : list gen := [mkGen 0 0 0 0 0 1 true true; mkGen 1 1 1 (-1) 1 0 true false].
-Lemma qlim2_index_error : qrun (fun _ => Some [0; -2]) true g2 = QErr 1.
-Proof. vm_compute. reflexivity. Qed.
-Lemma qlim1_same_input_ok : exists st qg c, qrun (fun l => match l with [] => Some [0; -2] | _ => Some [-1; 0] end) false g2 = QDone st qg c
+Lemma select_old_index_error : select_old true g2 [0; -2] [] [1%nat] = SelErr /\ select true g2 [0; -2] [] [1%nat] = SelOk [] [1%nat].
+Proof. vm_compute. split; reflexivity. Qed.
+Lemma qlim2_same_input_ok : exists st qg c, qrun (fun l => match l with [] => Some [0; -2] | _ => Some [-1; 0] end) true g2 = QDone st qg c
                                        /\ limited st = [1%nat] /\ final_qg st qg 1 = -1.
 Proof. eexists _, _, _. vm_compute. repeat split. Qed.
 
@@ -309,3 +341,21 @@ Proof.
 Qed.
 Lemma pq_setpoint e : e_on e = true -> res_pq_p e == e_p e * e_sc e /\ res_pq_q e == e_q e * e_sc e.
 Proof. intros O. unfold res_pq_p, res_pq_q. rewrite O. cbn [b2q]. qnorm. split; ring. Qed.
+
+(* ------------------------------------------------------------------ solver bypass *)
+Lemma run_q_within_limits srcs nb solve qlim2 gens st qg c i g :
+  G04b srcs nb = true -> run_q srcs nb solve qlim2 gens = QDone st qg c ->
+  nthg gens i = Some g -> g_on g = true -> g_ref g = false -> memn i (limited st) = false ->
+  g_qmin g <= final_qg st qg i <= g_qmax g.
+Proof. unfold run_q. intros G. rewrite G. apply qrun_within_limits. Qed.
+(* two reference buses (ext_grid, slack gen) and a plain gen next to the slack gen: its Q is not limited *)
+Definition byp_srcs : list vsrc := [mkV KEg 0 1 0; mkV KSlackGen 1 1 0; mkV KGen 1 1 0].
+Definition byp_gens : list gen := [mkGen 0 0 0 0 0 0 true true; mkGen 1 1 0 (-1) 1 0 true true; mkGen 1 1 1 (-1) 1 0 true false].
+Lemma run_q_bypass_refuted :
+  G04b byp_srcs 2 = false /\
+  exists st qg c, run_q byp_srcs 2 (fun _ => Some [0; 3; 3]) false byp_gens = QDone st qg c /\
+                  limited st = [] /\ ~ final_qg st qg 2 <= g_qmax (mkGen 1 1 1 (-1) 1 0 true false).
+Proof.
+  split; [reflexivity|]. eexists _, _, _. split; [vm_compute; reflexivity|]. split; [reflexivity|].
+  vm_compute. intros H. apply H. reflexivity.
+Qed.
